@@ -323,11 +323,12 @@ fn parent(args: &vpc::Args) -> ! {
     for (k, n) in &chk.outcomes {
         run.outcome_n(k, *n);
     }
+    let counts: Mutex<BTreeMap<String, u64>> = Mutex::new(BTreeMap::new());
     let report = |class: &str, n: u64, w: &Value, what: &str| {
-        run.violation(class, what, w.clone());
-        for _ in 1..n.min(1_000_000) {
-            run.violation(class, what, Value::Null);
-        }
+        let mut w = w.clone();
+        w["witnesses_this_run"] = json!(n);
+        counts.lock().unwrap().insert(class.to_string(), n);
+        run.violation(class, &format!("{what} [{n} witnesses this run]"), w);
     };
     for (class, (n, w)) in &chk.fails {
         if class.starts_with("panic@") {
@@ -376,6 +377,7 @@ fn parent(args: &vpc::Args) -> ! {
             "catalogue_crosscheck": cat::CROSSCHECK,
             "exhaustive": complete,
             "spaces": per_space,
+            "witnesses_per_violation_class": *counts.lock().unwrap(),
             "operations_skipped_after_their_crash_class_was_recorded": {"relcheck": chk.skipped, "release": rel.skipped},
             "bound": if thorough { thorough_bound } else { quick_bound },
         }),
